@@ -473,7 +473,12 @@ DeployEv(e) ==
                                                                                    ELSE "a malformed command was not rejected with Err")})
              \cup (IF ~good \/ sameasapi THEN {} ELSE {F(e, "C14", "the script's effect differs from the same API calls")})
       xs == IF ~good \/ (ObsMatches(o, g2) /\ LatentOk(o, g2) /\ o.nextv = g2.nextv) THEN {} ELSE {F(e, "X-script", "the script's effect differs from the exact model")}
-      c05 == IF ~good \/ (ToSet(o.alive) \ g.present) \cap issued[h] = {} THEN {}
+      \* ids the script allocated for its variables: newly present and not named as a literal by the script itself
+      lits == {e.prog[i].v.id : i \in {j \in 1..n : e.prog[j].c \in {"ADD", "PUT"} /\ e.prog[j].v.k = "lit"}}
+              \cup {e.prog[i].v1.id : i \in {j \in 1..n : e.prog[j].c = "BIND" /\ e.prog[j].v1.k = "lit"}}
+              \cup {e.prog[i].v2.id : i \in {j \in 1..n : e.prog[j].c = "BIND" /\ e.prog[j].v2.k = "lit"}}
+      allocated == IF good THEN (ToSet(o.alive) \ g.present) \ lits ELSE {}
+      c05 == IF allocated \cap issued[h] = {} THEN {}
              ELSE {F(e, "C05", "a script variable was given a previously issued id")}
       aliveok == good /\ AliveOk(o, g2)
   IN
@@ -483,7 +488,7 @@ DeployEv(e) ==
      !.safe = [safe EXCEPT ![h] = SafeSettle([@ EXCEPT !.unread = @ \cup Unread(g2), !.bound = @ \cup UNION g2.groups,
                                                          !.link = IF g2.present = {} THEN {} ELSE {g2.present}],
                                              IF good THEN ToSet(o.alive) ELSE safe[h].present)],
-     !.issued = [issued EXCEPT ![h] = @ \cup {r.tab[x] : x \in DOMAIN r.tab}],
+     !.issued = [issued EXCEPT ![h] = @ \cup {r.tab[x] : x \in DOMAIN r.tab} \cup allocated],
      !.lastobs = NewObs(e),
      !.lastev = [op |-> e.op, ret |-> e.ret],
      !.div = (div \/ ~aliveok)]
